@@ -161,6 +161,20 @@ Fixpoint get_journals_f {A : Type} (maxl : nat) (visit acc : list A) : option (l
 Definition get_journals {A : Type} (maxl : nat) (matching : list A) : option (list A) := get_journals_f maxl matching [].
 Definition merge_limit : nat := 50.
 
+(* the same visit when opening a partition's journal can fail (Journals.GetOrCreate returns an error: I/O fault, no file
+   descriptors): the visitor records the error and stops the visit; GetJournals then releases what it collected and
+   returns the error. `opens x = false`: the journal of x cannot be opened. *)
+Fixpoint get_journals_of {A : Type} (opens : A -> bool) (maxl : nat) (visit acc : list A) : option (list A) :=
+  match visit with
+  | [] => Some acc
+  | x :: tl => if opens x
+               then let acc1 := acc ++ [x] in
+                    if Nat.eqb (length acc1) maxl then None else get_journals_of opens maxl tl acc1
+               else None
+  end.
+Definition get_journals_o {A : Type} (opens : A -> bool) (maxl : nat) (matching : list A) : option (list A) :=
+  get_journals_of opens maxl matching [].
+
 (* srcs: the matching sources in the order newCursor's map iteration meets them *)
 Definition new_cursor (srcs : list (nat * leaf)) (f : option flt) (p : posspec) : option cursor :=
   match get_journals merge_limit srcs with
@@ -168,6 +182,17 @@ Definition new_cursor (srcs : list (nat * leaf)) (f : option flt) (p : posspec) 
   | Some l =>
       match build_tree (map (fun s => MLeaf (fst s) (snd s)) l) with
       | None => None                                  (* errNoSources *)
+      | Some t => Some (mkCur (apply_pos p t) f None false (length l))
+      end
+  end.
+
+(* newCursor when opening a source can fail: the error of GetJournals refuses the cursor *)
+Definition new_cursor_o (opens : nat * leaf -> bool) (srcs : list (nat * leaf)) (f : option flt) (p : posspec) : option cursor :=
+  match get_journals_o opens merge_limit srcs with
+  | None => None
+  | Some l =>
+      match build_tree (map (fun s => MLeaf (fst s) (snd s)) l) with
+      | None => None
       | Some t => Some (mkCur (apply_pos p t) f None false (length l))
       end
   end.
